@@ -703,6 +703,15 @@ func (c *Ctx) evalCall(env *CEnv, e *ast.CallExpr) CVal {
 				cerr("%s: argument is not a call with at least %d results", id.Name, k+1)
 			}
 			return CVal{V: tv.V[k], T: tt.At(k).Type()}
+		case "as":
+			// as(x, "*T"): the payload of interface value x viewed as a pointer of type *T (meaningful when is(x, "*T"))
+			v := c.evalExpr(env, e.Args[0])
+			tn := c.evalExpr(env, e.Args[1])
+			if tn.K == nil {
+				cerr("as(): type name string expected")
+			}
+			t := c.resolveTypeName(env, constant.StringVal(tn.K))
+			return CVal{V: Sc{refOf(v), "Int"}, T: t}
 		case "enumParse":
 			// enumParse(text, v, dflt, "n1", k1, "n2", k2, ...): text equal to a listed name parses to its value, any other text to dflt
 			if len(e.Args) < 3 || len(e.Args)%2 != 1 {
